@@ -11,6 +11,7 @@ import (
 
 	"github.com/safing/portbase/updater"
 	"github.com/safing/portbase/utils"
+	"verifharness/internal/vlib"
 )
 
 // ---------------------------------------------------------------------------------
@@ -22,6 +23,7 @@ type zipEntry struct {
 	Content string `json:"content,omitempty"`
 	Hostile bool   `json:"from_name_list,omitempty"`
 	Kind    string `json:"kind,omitempty"`
+	Link    bool   `json:"symlink,omitempty"` // symlink-mode entry; Content is the link target
 }
 
 func buildZip(ents []zipEntry) ([]byte, error) {
@@ -31,6 +33,8 @@ func buildZip(ents []zipEntry) ([]byte, error) {
 		h := &zip.FileHeader{Name: e.Name, Method: zip.Store}
 		if e.Dir {
 			h.SetMode(0o755 | os.ModeDir)
+		} else if e.Link {
+			h.SetMode(os.ModeSymlink | 0o777)
 		} else {
 			h.SetMode(0o644)
 		}
@@ -87,6 +91,7 @@ func runUnpack(c *cctx) {
 		mustWrite(p, can)
 	}
 	mustMkdir(filepath.Dir(archive))
+	embed := c.sb.seedReplica(extract) // a replica of the extraction dir's absolute path in a foreign tree
 	targets := append(append([]string{}, c.sb.Targets...), inStorage...)
 	targets = append(targets, storage, filepath.Join(storage, "tmp"), filepath.Join(storage, "pkg"), filepath.Join(storage, "keep"), extract+"x")
 	c.root = extract
@@ -95,7 +100,16 @@ func runUnpack(c *cctx) {
 	c.b.Extra["extract"] = extract
 	c.b.Extra["dest"] = dest
 	c.b.Extra["archive"] = archive
-	g := &nameGen{Root: extract, Targets: targets, Inside: []string{"d1", "d1/d2", "f1"}, Suffix: []string{"x", "-other"}}
+	g := &nameGen{Root: extract, Targets: targets, Inside: []string{"d1", "d1/d2", "f1"}, Suffix: []string{"x", "-other"}, Embed: embed}
+	// where symlink-mode entries may point: existing directories and files outside the extraction dir
+	var linkDirs, linkFiles []string
+	for _, t := range targets {
+		if fi, err := os.Lstat(t); err == nil && fi.IsDir() {
+			linkDirs = append(linkDirs, t)
+		} else if err == nil {
+			linkFiles = append(linkFiles, t)
+		}
+	}
 
 	names := c.names(g)
 	if len(c.sp.Entries) > 0 {
@@ -153,13 +167,53 @@ func runUnpack(c *cctx) {
 			ents = append(ents[:at:at], append(add, ents[at:]...)...)
 		}
 
+		// symlink-mode entries (content = link target) followed by entries whose names pass
+		// through the link or repeat its name: no name escapes lexically, the physical
+		// oracles (outside snapshot, path-access) decide
+		if ch.Chance(1, 3) {
+			allPlain = false
+			parent := vlib.Pick(ch, "", "assets/", "lib/x/")
+			link := parent + vlib.Pick(ch, "shared", "lnk", "current")
+			linkAbs := filepath.Join(extract, link)
+			var lg []zipEntry
+			for i, seg := 0, strings.Split(strings.TrimSuffix(parent, "/"), "/"); parent != "" && i < len(seg); i++ {
+				lg = append(lg, zipEntry{Name: strings.Join(seg[:i+1], "/") + "/", Dir: true})
+			}
+			switch ch.Intn(5) {
+			case 0, 1: // relative link to a directory outside, then entries below the link
+				t, _ := filepath.Rel(filepath.Dir(linkAbs), vlib.Pick(ch, linkDirs...))
+				lg = append(lg, zipEntry{Name: link, Link: true, Content: t},
+					zipEntry{Name: link + "/pwned.txt", Content: "THROUGH-LINK"}, zipEntry{Name: link + "/rec1", Content: "OVERWRITTEN"})
+				if ch.Bool() {
+					lg = append(lg, zipEntry{Name: link + "/nd/", Dir: true})
+				}
+			case 2: // absolute link to a directory outside
+				lg = append(lg, zipEntry{Name: link, Link: true, Content: vlib.Pick(ch, linkDirs...)},
+					zipEntry{Name: link + "/rec1", Content: "OVERWRITTEN"}, zipEntry{Name: link + "/pwned.txt", Content: "THROUGH-LINK"})
+			case 3: // link to a file outside, then a regular entry with the link's own name
+				t := vlib.Pick(ch, linkFiles...)
+				if ch.Bool() {
+					t, _ = filepath.Rel(filepath.Dir(linkAbs), t)
+				}
+				lg = append(lg, zipEntry{Name: link, Link: true, Content: t}, zipEntry{Name: link, Content: "OVERWRITTEN"})
+			default: // link that stays inside
+				lg = append(lg, zipEntry{Name: link, Link: true, Content: vlib.Pick(ch, ".", "..", "f1", "d1")},
+					zipEntry{Name: link + "/viaInsideLink", Content: "INSIDE"})
+			}
+			if ch.Bool() {
+				ents = append(lg, ents...)
+			} else {
+				ents = append(ents, lg...)
+			}
+		}
+
 		if len(c.sp.Entries) > 0 {
 			ents, allPlain = c.sp.Entries, false
 		}
 
 		// oracle's view: resolve every entry against the extraction dir, simulate
 		ni := &nameInfo{Comp: comp, Name: group[0][0], Kind: group[0][1], Form: "zip-entry", Class: "inside"}
-		wellFormed := true
+		wellFormed, hasLink, linkDesc := true, false, ""
 		sim := map[string]bool{extract: true} // path -> isDir
 		for _, e := range ents {
 			t := resolveFrom(extract, e.Name)
@@ -171,6 +225,10 @@ func runUnpack(c *cctx) {
 				c.b.Seen("kinds."+comp, e.Kind)
 				c.b.Seen("classes."+comp, cl)
 				c.b.DistinctS(comp + "\x00" + e.Name)
+			}
+			if e.Link {
+				hasLink = true
+				linkDesc = e.Name + " -> " + e.Content
 			}
 			if cl != "inside" {
 				if !ni.Esc {
@@ -196,6 +254,16 @@ func runUnpack(c *cctx) {
 		}
 		if !ni.Esc {
 			ni.Target = resolveFrom(extract, ni.Name)
+		}
+		if hasLink {
+			wellFormed = false
+			c.b.Count("archives_with_symlink_entries", 1)
+			if ni.Esc {
+				ni.Class += "+link" // an escaping name and a link in one archive: either may be the cause
+			} else {
+				ni.Name, ni.Kind = "(symlink-mode entry) "+linkDesc, "symlink-entry"
+				ni.Class = "through-link" // no name escapes lexically; only a link created by the archive can lead out
+			}
 		}
 		data, err := buildZip(ents)
 		if err != nil {
@@ -270,14 +338,18 @@ func runScan(c *cctx) {
 	_ = os.Setenv("PWD", c.sb.Outer)
 	c.cwd = c.sb.Outer
 	c.sb.freeze()
-	g := &nameGen{Root: storage, Targets: c.sb.Targets, Inside: []string{"pkg", "pkg/sub", "tmp", "pkg/inres_v1-2-3.zip"}, Suffix: c.sb.Suffixes}
+	g := &nameGen{Root: storage, Targets: c.sb.Targets, Inside: []string{"pkg", "pkg/sub", "tmp", "pkg/inres_v1-2-3.zip"}, Suffix: c.sb.Suffixes, Embed: c.sb.Embed}
 
 	for _, nk := range c.names(g) {
 		name := nk[0]
 		ch := c.choice(name)
 		ni := &nameInfo{Comp: comp, Name: name, Kind: nk[1]}
 		arg := name
-		switch f := ch.Intn(6); {
+		f := ch.Intn(6)
+		if strings.HasPrefix(name, "/") && ch.Chance(2, 3) {
+			f = 2
+		}
+		switch {
 		case f <= 1:
 			ni.Form = "abs-appended"
 			arg = storage + "/" + name
